@@ -1,5 +1,6 @@
 import QV.Proofs.Arith
 import QV.Proofs.Mul
+import QV.Proofs.Front6
 import QV.Model.Front
 /-!
 # C01 – Boolean expressions mean what the Python source means
@@ -300,6 +301,70 @@ theorem char_eq_witness :
     (qEq [.sym "c.0", .sym "c.1", .sym "c.2"] (qintConst 2 3)).eval
         (envOf [("c.0", true), ("c.1", true), ("c.2", true)]) = false := by
   decide
+
+/-! ## the translator theorem on the bool / Qint expression fragment
+
+Reference semantics: `QV.Sem.semW` (`lean/QV/Model/Sem.lean`; fixed-width unsigned: every operator
+computed exactly on the operand values, then reduced modulo `2^w`, `w` from the typing rules written
+there).  It is validated on every generated program against the independent python oracle
+`harness/pysem.py` (driver op `c01.semw`). -/
+
+/-- **C01_expr** – translator theorem for expressions.  For every expression `e` of the fragment
+`Sem.inFrag` (variables, bool / int constants, `not`, `~`, `and` / `or`, if-expressions, the six
+comparisons, `+ - * % ^ & | << >>`), every binding environment `env` whose variables denote the
+values `σ` gives them under the assignment `ρ` of the symbols (`Sem.EnvOK`), and every state of the
+translator monad: if the model of `translate_expression` (`Front.tr`, all listed defects repaired)
+succeeds with type `t` and value `v`, then the reference semantics `SemW` is defined on `e`, and
+either `t = bool`, `v` is one expression and its truth value under `ρ` is `SemW`'s bool, or
+`t = Qint[w]`, `v` is a list of exactly `w` bit expressions and their little-endian value under `ρ`
+is `SemW`'s integer (of the same width `w`).  By structural induction over `e`, one lemma per
+syntactic form (`QV/Proofs/Front*.lean`), on top of the library theorems above (`add_spec`,
+`sub_spec`, `mul_spec`, `mod_spec`, shifts, bitwise, comparators). -/
+theorem C01_expr (ρ : Env) (env : Front.Env) (σ : Sem.SEnv) (henv : Sem.EnvOK ρ env σ)
+    (e : PExp) (hfrag : Sem.inFrag e = true) (s s' : St) (t : Ty) (v : Val)
+    (h : (tr Quirks.none env e).run s = .ok ((t, v), s')) :
+    ∃ sv, Sem.semW σ e = some sv ∧
+      ((∃ a : BExp, t = .bool ∧ v = .atom a ∧ sv = .bool (a.eval ρ)) ∨
+       (∃ bits : List BExp, t = .qint bits.length ∧ v = Val.ofBits bits ∧
+          sv = .int bits.length (val ρ bits))) := by
+  obtain ⟨sv, hs, hd⟩ := Sem.sound_all ρ env σ henv e hfrag s t v s' h
+  refine ⟨sv, hs, ?_⟩
+  cases hd with
+  | bool a => exact Or.inl ⟨a, rfl, rfl, rfl⟩
+  | int bits => exact Or.inr ⟨bits, rfl, rfl, rfl⟩
+
+/-- the environment `translate_ast` starts from (arguments of type `bool` / `Qint[w]`, `w ≠ 1`)
+satisfies the hypothesis of `C01_expr` with `σ` = the arguments decoded from their bits
+(`Sem.argsEnv`: `a` is `Σ ρ("a.i")·2^i`) -/
+theorem C01_expr_args_env (ρ : Env) (args : List (String × Ty))
+    (hargs : ∀ p ∈ args, Sem.argTyOK p.2 = true) :
+    Sem.EnvOK ρ (args.foldl (fun env (n, t) => env ++ [⟨n, t, t.names n⟩]) []) (Sem.argsEnv args ρ) :=
+  Sem.envOK_args ρ args hargs
+
+/-- `C01_expr` for an expression over the arguments of a function: whatever the translator returns
+for `e` in the initial environment has, under every assignment `ρ` of the argument bits, the
+fixed-width python value `SemW` gives `e` on the decoded arguments -/
+theorem C01_expr_args (ρ : Env) (args : List (String × Ty))
+    (hargs : ∀ p ∈ args, Sem.argTyOK p.2 = true)
+    (e : PExp) (hfrag : Sem.inFrag e = true) (s s' : St) (t : Ty) (v : Val)
+    (h : (tr Quirks.none (args.foldl (fun env (n, t) => env ++ [⟨n, t, t.names n⟩]) []) e).run s
+          = .ok ((t, v), s')) :
+    ∃ sv, Sem.semW (Sem.argsEnv args ρ) e = some sv ∧
+      ((∃ a : BExp, t = .bool ∧ v = .atom a ∧ sv = .bool (a.eval ρ)) ∨
+       (∃ bits : List BExp, t = .qint bits.length ∧ v = Val.ofBits bits ∧
+          sv = .int bits.length (val ρ bits))) :=
+  C01_expr ρ _ _ (Sem.envOK_args ρ args hargs) e hfrag s s' t v h
+
+/-- the hypotheses are satisfiable: `a * 3 - b < 5` over `a : Qint[2]`, `b : Qint[3]` is in the
+fragment, its arguments are covered, and the translator accepts it -/
+example :
+    let args : List (String × Ty) := [("a", .qint 2), ("b", .qint 3)]
+    let e : PExp := .cmp "Lt" (.bin "sub" (.bin "mul" (.name "a") (.cint 3)) (.name "b")) (.cint 5)
+    (∀ p ∈ args, Sem.argTyOK p.2 = true) ∧ Sem.inFrag e = true ∧
+    ∃ v s', (tr Quirks.none (args.foldl (fun env (n, t) => env ++ [⟨n, t, t.names n⟩]) []) e).run {}
+      = .ok ((.bool, v), s') := by
+  refine ⟨by decide, by decide, ?_⟩
+  exact ⟨_, _, rfl⟩
 
 /-! ## what is proved of the property: the library part -/
 
